@@ -150,6 +150,31 @@ mut("c04-setdiag-truncates-long", ["C04"], "response.go",
 mut("c04-code-int8", ["C04"], "response.go",
     "l.code = int16(code)", "l.code = int16(int8(code))")
 
+# ---- C05 -------------------------------------------------------------------
+mut("c05-lock-removed", ["C05"], "response.go",
+    "\trw.writerMu.Lock()\n\tdefer rw.writerMu.Unlock()\n", "")
+mut("c05-lock-released-before-flush", ["C05"], "response.go",
+    "\trw.writerMu.Lock()\n\tdefer rw.writerMu.Unlock()\n\tif _, err := rw.writer.Write(r.packet().Bytes()); err != nil {\n\t\treturn fmt.Errorf(\"%s: unable to write response: %w\", op, err)\n\t}\n",
+    "\trw.writerMu.Lock()\n\tif _, err := rw.writer.Write(r.packet().Bytes()); err != nil {\n\t\trw.writerMu.Unlock()\n\t\treturn fmt.Errorf(\"%s: unable to write response: %w\", op, err)\n\t}\n\trw.writerMu.Unlock()\n")
+mut("c05-fresh-mutex-per-writer", ["C05"], "conn.go",
+    "w, err := newResponseWriter(c.writer, &c.writerMu, c.logger, c.connID, requestID)", "w, err := newResponseWriter(c.writer, &sync.Mutex{}, c.logger, c.connID, requestID)")
+mut("c05-lock-skipped-for-small-frames", ["C05"], "response.go",
+    "\trw.writerMu.Lock()\n\tdefer rw.writerMu.Unlock()\n\tif _, err := rw.writer.Write(r.packet().Bytes()); err != nil {",
+    "\tb := r.packet().Bytes()\n\tif len(b) > 512 {\n\t\trw.writerMu.Lock()\n\t\tdefer rw.writerMu.Unlock()\n\t}\n\tif _, err := rw.writer.Write(b); err != nil {")
+
+# ---- C06 -------------------------------------------------------------------
+mut("c06-handler-inline", ["C06"], "conn.go",
+    "\t\t\tc.requestsWg.Add(1)\n\t\t\tgo func() {\n\t\t\t\tdefer func() {\n\t\t\t\t\tc.logger.Debug(\"requestsWg done\", \"op\", op, \"conn\", c.connID, \"requestID\", w.requestID)\n\t\t\t\t\tc.requestsWg.Done()\n\t\t\t\t}()\n\t\t\t\tc.router.serve(w, r)\n\t\t\t}()",
+    "\t\t\tc.router.serve(w, r)")
+mut("c06-global-dispatch-lock", ["C06"], "conn.go",
+    "\t\t\t\tc.router.serve(w, r)\n\t\t\t}()", "\t\t\t\tc.router.mu.Lock()\n\t\t\t\tdefer c.router.mu.Unlock()\n\t\t\t\tc.router.serve(w, r)\n\t\t\t}()")
+mut("c06-request-id-skips-after-extended", ["C06"], "conn.go",
+    "\t\tr, err := c.readRequest(w.requestID)\n", "\t\tr, err := c.readRequest(w.requestID)\n\t\tif err == nil && r.routeOp == extendedRouteOperation {\n\t\t\trequestID++\n\t\t}\n")
+mut("c06-search-dispatched-inline", ["C06"], "conn.go",
+    "case r.extendedName == ExtendedOperationStartTLS:", "case r.extendedName == ExtendedOperationStartTLS || r.routeOp == searchRouteOperation:")
+mut("c06-inflight-cap-8", ["C06"], "conn.go",
+    "\t\t\tc.requestsWg.Add(1)\n\t\t\tgo func() {", "\t\t\tif requestID%9 == 0 {\n\t\t\t\tc.requestsWg.Wait()\n\t\t\t}\n\t\t\tc.requestsWg.Add(1)\n\t\t\tgo func() {")
+
 # ---- C14 -------------------------------------------------------------------
 mut("c14-managedsait-criticality-dropped-on-decode", ["C14", "C01"], "control.go",
     "return NewControlManageDsaIT(WithCriticality(Criticality))", "return NewControlManageDsaIT()")
